@@ -4,7 +4,7 @@ keys/versions whose wrapped payload has CRC low / high / both bytes 0x00) x ever
 a block; TLC validates the written header (every block unwraps to the session key with AES.tla / the OpenSSL
 ECIES key) and that the read-back equals ReadBec2 of the specification and the authentic content.
 MC: the abstract BEC2 model (MC_Bec2) exhausts block subsets x decryptor subsets x key classes."""
-import os
+import os, io
 
 from ..common import SPEC, Scratch, rng, MachineryError, B
 from ..report import Report
@@ -84,6 +84,32 @@ def run(tier):
         # error-path histories: refused write then correct write of the same object; reads without a usable decryptor
         # (MAC checking on and off); three-block headers whose outer blocks disagree
         E.bec2_error_paths(rec, seams, orc, r, rcpts, C, 6 if tier == "quick" else 40)
+        # the documented example flows (appnotes/create_bec2file_with_*.py) run as they are; the objects they leave behind are
+        # written and read back through the recorders: derive_auth_blocks_from_config + derive_comments + set_config + write
+        import runpy, contextlib
+        from ..common import REPO
+        from bec2format.bec2file import InitCustKeyAuthBlock as _IC, UpdateAuthBlock as _UP, InitEccAuthBlock as _IE
+        napp = 0
+        for script in ("create_bec2file_with_cust_key.py", "create_bec2file_with_ec_key.py"):
+            with contextlib.redirect_stdout(io.StringIO()):
+                ns = runpy.run_path(os.path.join(REPO, "appnotes", script))
+            seams.take()
+            bec = ns["bec2"]
+            metas = []
+            for b in bec.auth_blocks.values():
+                if isinstance(b, _IC):
+                    metas.append({"tag": 1, "wkey": B(bytes([0x12, 0x34] * 8)), "ck": [], "pos": 0})
+                elif isinstance(b, _UP):
+                    metas.append({"tag": 2, "wkey": B(B2.code_key(b.config_security_code)), "code": B(b.config_security_code), "version": b.version})
+                elif isinstance(b, _IE):
+                    metas.append({"tag": 3, "sel": b.key_selector, "explicit": False})
+            encs = ns.get("encryptors", [])
+            text, ev = G.rec_bec2_write(rec, seams, orc, bec, metas, list(encs), [])
+            if "encryptors" in ns:
+                decs = [B2.dec_cust(bytes([0x12, 0x34] * 8)), B2.dec_code(ns["config_security_code"])]
+                B2.rec_bec2_read(rec, text, decs, {}, orc, True, auth=B2.proj_bec2(bec), label="appnote")
+                B2.rec_bec2_read(rec, text, decs[1:], {}, orc, True, auth=B2.proj_bec2(bec), label="appnote")
+            napp += 1
         # binding self-test: a read event whose recorded session key is altered must be rejected
         last_read = [e for e in rec.events if e["op"] == "bec2.read" and e["kind"] == "ok"][-1]
         can = dict(last_read)
